@@ -21,14 +21,20 @@ LW = {'L_TRY_READ_LOCK': L + r'try_read_lock\(\)', 'L_CHECK': L + r'check\(unodb
 SPEC_LOOPS = {'nv_load.0': 260, 'nv_load.1': 260, 'nv_child.0': 18, 'nv_wf_small.0': 18, 'nv_wf_48_full.0': 50, 'nv_wf_48_full.1': 260, 'nv_wf_256_full.0': 260, 'node_wf.0': 50, 'adt_tag.0': 10,
               'lk_idx.0': 6, 'no_write_lock_held.0': 6, 'retired.0': 6, 'lg_freed.0': 6, 'lg_on_free.0': 6, 'stats_load.0': 7, 'stats_load.1': 6, 'stats_check.0': 7, 'stats_check.1': 6, 'memcmp.0': 10}
 UNW = {1: 10, 2: 19, 3: 258, 4: 258}
+def copy_rx(dst, src, tail): return onode_rx(dst) + r'init\(unodb::olc_db<.*>&, unodb::detail::olc_inode_%d<[^()]*>&, %s' % (src, tail)
 for kind in (1, 2, 3, 4):
     n = CLSN[kind]; stubs = dict(ADT); stubs.update(LW)
+    if kind >= 3: stubs['P_INIT'] = copy_rx(CLSN[kind - 1], n, r'unsigned char\)')
     job('olc.rocs.k%d' % kind, ['C14', 'C16', 'C10', 'C08'], 'u_olc', 'proofs/olc/rocs.c', defines=['KIND=%d' % kind, 'POL=OLC64'],
         roots={'ROCS': r'unodb::detail::olc_impl_helpers::remove_or_choose_subtree<[^(]*olc_inode_%d<' % n}, stubs=stubs, cfgs=(BASE, DEBUG),
         unwind=UNW[kind], unwindset_raw=SPEC_LOOPS, floor=30, timeout=1800, mem_gb=20, memsafe=False, objbits=14,
         under_contract=['olc_impl_helpers::remove_or_choose_subtree<olc_inode_%d> (lock-coupled removal step incl. write guards, obsolete, QSBR retire)' % n],
         trusted=['sequential contracts of the optimistic_lock primitives (their concurrent semantics: C07)', 'one thread only: no claim about interleavings',
-                 'qsbr_per_thread::on_next_epoch_deallocate is a ledger event'])
+                 'qsbr_per_thread::on_next_epoch_deallocate is a ledger event'] + (['basic_inode_%d::init(db, inode_%d&, child_to_delete) (shrink copy routine): no lock operation (IR fact olc.copy-routines.no-locks); memory / statistics / retire effects not modelled, shrink postconditions C10/C04-seq not claimed for this class' % (CLSN[kind - 1], n)] if kind >= 3 else []))
+QS = {'RETIRE': LW['RETIRE'], 'THIS_THREAD': LW['THIS_THREAD']}
+job('olc.copy-routines.no-locks', ['C14'], 'u_olc', 'proofs/olc/rocs.c', cfgs=(BASE, DEBUG), floor=2,
+    irfacts=[('closure-free-of', copy_rx(16, 48, r'unsigned char\)'), r'^unodb::optimistic_lock::(try_|write_|check\(|inc_|dec_|write_guard::|read_critical_section::)', QS), ('closure-free-of', copy_rx(48, 256, r'unsigned char\)'), r'^unodb::optimistic_lock::(try_|write_|check\(|inc_|dec_|write_guard::|read_critical_section::)', QS)],
+    under_contract=['basic_inode_16::init(db, inode_48&, uint8_t), basic_inode_48::init(db, inode_256&, uint8_t): call closure free of lock primitives (static IR fact, supporting)'])
 
 # try_remove: entry + one loop iteration, with the four remove_or_choose_subtree instantiations replaced by the contract proved in olc.rocs.k1..k4
 for kind in (0, 1):
@@ -55,3 +61,33 @@ for kind in (0, 1, 2):
         unwind=10, floor=20, timeout=900, memsafe=False, objbits=14,
         under_contract=['olc_db<uint64_t>::try_insert (%s)' % ('entry: empty tree, non-empty up to the loop head' if kind == 0 else 'one loop iteration at a leaf (exists / leaf split)' if kind == 1 else 'one loop iteration at an inner node (prefix split / callee add_or_choose_subtree by contract)')],
         trusted=['sequential contracts of the optimistic_lock primitives (their concurrent semantics: C07)', 'one thread only: no claim about interleavings'])
+# read-only operations never take a write lock: static fact over the call closure of each entry point (supporting C14 for get and the scans,
+# whose per-step lock coupling is otherwise only proved for try_get)
+NOWR = r'^unodb::optimistic_lock::(try_upgrade_to_write_lock|try_lock|write_unlock|write_unlock_and_obsolete|write_guard::)'
+CUTQ = {'THIS_THREAD?': LW['THIS_THREAD'], 'REG?': r'^unodb::detail::qsbr_ptr_base::register_active_ptr\(', 'UNREG?': r'^unodb::detail::qsbr_ptr_base::unregister_active_ptr\('}
+job('olc.readers.no-write-locks', ['C14'], 'u_olc', 'proofs/olc/get.c', cfgs=(BASE, DEBUG), floor=5,
+    irfacts=[('closure-free-of', O64 + r'get_internal\(', NOWR, CUTQ)] +
+            [('closure-free-of', O64 + r'iterator::%s\(' % f, NOWR, CUTQ) for f in ('first', 'last', 'next', 'prior', 'seek')] +
+            [('closure-free-of', r'^void unodb::olc_db<unsigned long, %s >::%s<' % (SPAN, f), NOWR, CUTQ) for f in ('scan', 'scan_from', 'scan_range')],
+    under_contract=['olc_db::get_internal, iterator::first/last/next/prior/seek, scan/scan_from/scan_range: call closure free of write-lock primitives (static IR fact, supporting)'])
+# ---- OLC iterator: lock coupling of seek / traversals / next / prior (read sections only), node readers and stack operations by contract
+IT = O64 + r'iterator::'
+INODE = r'^unodb::detail::basic_inode_impl<.*unodb::olc_db.*>::'
+ITSTUBS = {'L_TRY_READ_LOCK': L + r'try_read_lock\(\)', 'L_CHECK': L + r'check\(unodb::optimistic_lock::version_type\) const', 'L_REHYDRATE?': L + r'rehydrate_read_lock\(',
+           'PTR*': ADT['PTR*'], 'TRY_PUSH4?': IT + r'try_push\(unodb::detail::basic_node_ptr', 'TRY_PUSH2?': IT + r'try_push\(unodb::detail::iter_result', 'TRY_PUSH_LEAF?': IT + r'try_push_leaf\(',
+           'INVALIDATE?': IT + r'invalidate\(\)', 'TOP?': IT + r'top\(\)', 'EMPTY?': IT + r'empty\(\) const', 'POP?': IT + r'pop\(\)',
+           'N_BEGIN?': INODE + r'begin\(unodb::node_type\)', 'N_LAST?': INODE + r'last\(unodb::node_type\)', 'N_NEXT?': INODE + r'next\(unodb::node_type, unsigned char\)', 'N_PRIOR?': INODE + r'prior\(unodb::node_type, unsigned char\)',
+           'N_FIND?': INODE + r'find_child\(unodb::node_type, std::byte\)', 'N_GTE?': INODE + r'gte_key_byte\(unodb::node_type, std::byte\)', 'N_LTE?': INODE + r'lte_key_byte\(unodb::node_type, std::byte\)',
+           'N_GETCHILD?': INODE + r'get_child\(unodb::node_type, unsigned char\)', 'LEAF_CMP?': r'^unodb::detail::basic_leaf<unsigned long, unodb::detail::olc_node_header>::cmp\('}
+ITFUNCS = {'seek': ('TRY_SEEK', r'try_seek\(', 3), 'lmt': ('TRY_LMT', r'try_left_most_traversal\(', 3), 'rmt': ('TRY_RMT', r'try_right_most_traversal\(', 3),
+           'next': ('TRY_NEXT', r'try_next\(\)', 2), 'prior': ('TRY_PRIOR', r'try_prior\(\)', 2), 'first': ('TRY_FIRST', r'try_first\(\)', 1), 'last': ('TRY_LAST', r'try_last\(\)', 1)}
+for f, (alias, rx, nk) in ITFUNCS.items():
+    for kind in range(nk):
+        stubs = dict(ITSTUBS)
+        for g, (a2, rx2, _) in ITFUNCS.items():
+            if g != f and g in ('lmt', 'rmt', 'next', 'prior'): stubs[a2 + '?'] = IT + rx2
+        job('olc.iter.%s.k%d' % (f, kind), ['C14', 'C16'], 'u_olc', 'proofs/olc/iter.c', defines=['KIND=%d' % kind, 'POL=OLC64', 'FUNC_%s=1' % f.upper()],
+            roots={alias: IT + rx}, stubs=stubs, cut=([] if f in ('first', 'last') else ['%s/%s' % (alias, 'while_2econd' if f in ('seek', 'next', 'prior') else 'while_2ebody')]), cfgs=(BASE, DEBUG),
+            unwind=10, floor=5, timeout=900, memsafe=False, objbits=14, replay=('replay/olc_seek_rcs_debug_scenario.cpp' if f == 'seek' else None),
+            under_contract=['olc_db<uint64_t>::iterator::%s (read-section coupling; %s)' % (rx.split('\\')[0], 'straight-line' if nk == 1 else 'entry' if kind == 0 else 'loop iteration, case %d' % kind)],
+            trusted=['sequential contracts of the optimistic_lock primitives (their concurrent semantics: C07)', 'one thread only', 'iterator stack / key buffer operations and the per-class node readers by contract: arbitrary results, no lock operation'])
